@@ -70,6 +70,9 @@ type upstream struct {
 	main  bool
 	addr  netip.AddrPort
 	nw    forward.Network
+	// oneShotTCP: the upstream closes a stream after one reply, so that the
+	// connection the resolver keeps for later is dead when it is next used.
+	oneShotTCP bool
 	mu    sync.Mutex
 	state string
 	// got logs the names this upstream received, with the transport.
@@ -424,6 +427,7 @@ func (u *upstream) serve(n *simnet.Net) (stop func()) {
 						copy(out[2:], r)
 						// The reply arrives in one to three segments; the
 						// first may end inside the length prefix.
+						oneShot := u.oneShotTCP
 						for len(out) > 0 {
 							k := len(out)
 							switch u.seg.IntN(4) {
@@ -437,6 +441,10 @@ func (u *upstream) serve(n *simnet.Net) (stop func()) {
 							if len(out) > 0 {
 								time.Sleep(time.Millisecond)
 							}
+						}
+						if oneShot {
+							// (The deferred Close ends the stream in good order.)
+							return
 						}
 					}
 				}
@@ -537,12 +545,14 @@ func run(s *kernel.Sim, prop, cfg string) {
 	for i := 0; i < nMain; i++ {
 		u := &upstream{idx: i, main: true, addr: netip.MustParseAddrPort(fmt.Sprintf("198.51.100.%d:53", 10+i)), state: "up", seg: rand.New(rand.NewPCG(uint64(t.Choose(1<<30, "upstream-seed")), uint64(i)))}
 		u.nw = kernel.Pick(t, networks, "network")
+		u.oneShotTCP = t.Chance(1, 3, "tcp-one-shot")
 		mains = append(mains, u)
 		mainConf = append(mainConf, &forward.UpstreamPlainConfig{Network: u.nw, Address: u.addr, Timeout: time.Second})
 	}
 	for i := 0; i < nFB; i++ {
 		u := &upstream{idx: i, addr: netip.MustParseAddrPort(fmt.Sprintf("198.51.100.%d:53", 50+i)), state: "up", seg: rand.New(rand.NewPCG(uint64(t.Choose(1<<30, "upstream-seed")), uint64(i)))}
 		u.nw = kernel.Pick(t, networks, "network")
+		u.oneShotTCP = t.Chance(1, 3, "tcp-one-shot")
 		fbs = append(fbs, u)
 		fbConf = append(fbConf, &forward.UpstreamPlainConfig{Network: u.nw, Address: u.addr, Timeout: time.Second})
 	}
